@@ -63,18 +63,10 @@ def check(P: Project, R: Report) -> None:
             pn = ast.parse(payload, mode="eval").body
         except SyntaxError:
             pn = None
-        ok_frame = False
-        inner = None
-        if isinstance(pn, ast.Call) and isinstance(pn.func, ast.Attribute) and pn.func.attr == "encode":
-            enc_ok = (not pn.args and not pn.keywords) or (pn.args and isinstance(pn.args[0], ast.Constant) and str(pn.args[0].value).lower().replace("_", "-") in ("utf-8", "utf8") and not pn.keywords)
-            v = pn.func.value
-            if isinstance(v, ast.JoinedStr) and len(v.values) == 2 and isinstance(v.values[0], ast.FormattedValue) and isinstance(v.values[1], ast.Constant) and v.values[1].value == "\n" and v.values[0].conversion == -1 and v.values[0].format_spec is None:
-                inner = ast.unparse(v.values[0].value)
-                ok_frame = bool(enc_ok)
-            elif isinstance(v, ast.BinOp) and isinstance(v.op, ast.Add) and isinstance(v.right, ast.Constant) and v.right.value == "\n":
-                inner = ast.unparse(v.left)
-                ok_frame = bool(enc_ok)
-        R.ob("R1", "payload is f\"{s}\\n\".encode() — one trailing LF, UTF-8", ok_frame, f"{rel}:{loop.lineno}", f"payload `{payload[:80]}`")
+        inner, suffix, enc_ok, recognised = _frame_parts(pn)
+        R.need(recognised, f"the stdin payload `{payload[:60]}` is built in a shape this rule cannot read (expected <text> + LF, encoded)")
+        ok_frame = suffix == "\n" and enc_ok
+        R.ob("R1", "payload is f\"{s}\\n\".encode() — one trailing LF, UTF-8", ok_frame, f"{rel}:{loop.lineno}", f"payload `{payload[:80]}`: terminator {suffix!r}, UTF-8 encoding: {enc_ok}")
         if inner is None:
             continue
         # classify the serialised text
@@ -150,6 +142,45 @@ def check(P: Project, R: Report) -> None:
     R.ob("R5", "some exit closes stdin", any("aclose" in st.events for st in ends_fn), wr.where, "")
     closes = [c for c in walk_local(wr.node) if isinstance(c, ast.Call) and call_name(c).endswith("stdin.aclose")]
     R.ob("R5", "the close is after the loop, not inside it", bool(closes) and all(c not in list(walk_local(loop)) for c in closes), wr.where, "")
+
+
+def _utf8(call: ast.Call) -> bool:
+    if not call.args and not call.keywords:
+        return True
+    a0 = call.args[0] if call.args else kwarg(call, "encoding")
+    return isinstance(a0, ast.Constant) and str(a0.value).lower().replace("_", "-") in ("utf-8", "utf8") and len(call.args) <= 1 and all(k.arg == "encoding" for k in call.keywords)
+
+
+def _text_parts(v):
+    """(inner expression text, constant suffix) of `f"{s}<suffix>"` / `s + "<suffix>"`, or (None, None)."""
+    if isinstance(v, ast.JoinedStr):
+        vals = v.values
+        if vals and isinstance(vals[0], ast.FormattedValue) and vals[0].conversion == -1 and vals[0].format_spec is None and all(isinstance(x, ast.Constant) for x in vals[1:]):
+            return ast.unparse(vals[0].value), "".join(str(x.value) for x in vals[1:])
+        return None, None
+    if isinstance(v, ast.BinOp) and isinstance(v.op, ast.Add) and isinstance(v.right, ast.Constant) and isinstance(v.right.value, (str, bytes)):
+        suf = v.right.value.decode("latin-1") if isinstance(v.right.value, bytes) else v.right.value
+        if isinstance(v.left, ast.Call) and isinstance(v.left.func, ast.Attribute) and v.left.func.attr == "encode":
+            return ast.unparse(v.left.func.value), suf  # s.encode() + b"\n"
+        return ast.unparse(v.left), suf
+    return None, None
+
+
+def _frame_parts(pn):
+    """inner text expression, terminator constant, is-UTF-8, recognised?"""
+    if isinstance(pn, ast.Call) and isinstance(pn.func, ast.Attribute) and pn.func.attr == "encode":
+        inner, suf = _text_parts(pn.func.value)
+        if inner is not None:
+            return inner, suf, _utf8(pn), True
+        if isinstance(pn.func.value, (ast.Name,)):
+            return ast.unparse(pn.func.value), "", _utf8(pn), True  # bare s.encode(): no terminator
+        return None, None, False, False
+    if isinstance(pn, ast.BinOp):
+        inner, suf = _text_parts(pn)
+        if inner is not None:
+            enc = pn.left if isinstance(pn.left, ast.Call) else None
+            return inner, suf, (_utf8(enc) if enc is not None else False), True
+    return None, None, False, False
 
 
 def _true(node) -> bool:
